@@ -276,7 +276,11 @@ func refusedMenu(m mapping.IndexMapping) []refusedCall {
 	out = append(out, add1(math.NaN(), ddsketch.ErrUntrackableNaN), add1(math.Inf(1), ddsketch.ErrUntrackableTooHigh), add1(-math.MaxFloat64, ddsketch.ErrUntrackableTooLow))
 	for _, v := range []float64{1, 0, -7.3, math.NaN()} {
 		for _, c := range []float64{-0.0009765625, -1, math.Inf(-1)} {
-			out = append(out, add(v, c, ddsketch.ErrNegativeCount))
+			want := ddsketch.ErrNegativeCount
+			if math.IsNaN(v) {
+				want = nil // both arguments are invalid: either documented error corresponds
+			}
+			out = append(out, add(v, c, want))
 		}
 	}
 	for _, p := range []float64{math.NaN(), -5e-324, math.Nextafter(1, 2), -1, 2, math.Inf(1), math.Inf(-1)} {
